@@ -66,24 +66,32 @@ Cover(header, cells) ==
         /\ cells[i] = "True"  => s[header[i]]
         /\ cells[i] = "False" => ~s[header[i]]}
 
+NoDup(q) == \A i \in DOMAIN q : \A j \in DOMAIN q : q[i] = q[j] => i = j
+
 RowsWellFormed(header, rows) ==
-    \A i \in DOMAIN rows :
+    /\ NoDup(header)           \* so every row covers at least one assignment
+    /\ \A i \in DOMAIN rows :
         /\ Len(rows[i][1]) = Len(header)
         /\ \A j \in DOMAIN rows[i][1] : rows[i][1][j] \in {"True", "False", "Any"}
 
-\* C10: the rows are a faithful partition for the function G under the row filter
+Covers(header, cells, s) ==
+    \A i \in DOMAIN header :
+        /\ cells[i] = "True"  => s[header[i]]
+        /\ cells[i] = "False" => ~s[header[i]]
+
+\* C10: the rows are a faithful partition for the function G under the row filter.  Stated per assignment (which
+\* rows cover it) rather than per pair of rows, so that tables with hundreds of rows are checked in linear time:
+\* at most one row covers an assignment (pairwise disjoint), its result column is the function's value, and the
+\* covered assignments are all / the satisfying / the falsifying ones.
 TableOK(header, rows, G, filter) ==
     /\ RowsWellFormed(header, rows)
-    /\ \A i \in DOMAIN rows :
-          LET c == Cover(header, rows[i][1]) IN
-          /\ c # {}
-          /\ IF rows[i][2] THEN c \subseteq G ELSE c \cap G = {}
-    /\ \A i \in DOMAIN rows : \A j \in DOMAIN rows :
-          i # j => Cover(header, rows[i][1]) \cap Cover(header, rows[j][1]) = {}
-    /\ LET all == UNION {Cover(header, rows[i][1]) : i \in DOMAIN rows} IN
-       CASE filter = "Any"   -> all = NAsg
-         [] filter = "True"  -> all = G /\ \A i \in DOMAIN rows : rows[i][2]
-         [] filter = "False" -> all = NAsg \ G /\ \A i \in DOMAIN rows : ~rows[i][2]
+    /\ \A s \in NAsg :
+          LET hit == {i \in DOMAIN rows : Covers(header, rows[i][1], s)} IN
+          /\ Cardinality(hit) <= 1
+          /\ \A i \in hit : rows[i][2] = (s \in G)
+          /\ CASE filter = "Any"   -> hit # {}
+               [] filter = "True"  -> (hit # {}) = (s \in G)
+               [] filter = "False" -> (hit # {}) = (s \notin G)
 
 \* the header lists the free variables in variable order
 HeaderOK(header, tree) == header = SortedNames(FV(tree))
@@ -97,13 +105,13 @@ TableFunction(header, rows, filter) ==
 
 \* -v: one line per satisfying row: <<names that are true, names that are free (starred)>>
 VarsOK(header, lines, G) ==
-    LET CoverOf(ln) == {s \in NAsg : \A i \in DOMAIN header :
-                           IF header[i] \in SeqRange(ln[1]) THEN s[header[i]]
-                           ELSE IF header[i] \in SeqRange(ln[2]) THEN TRUE ELSE ~s[header[i]]}
+    LET CoversLine(ln, s) == \A i \in DOMAIN header :
+                               IF header[i] \in SeqRange(ln[1]) THEN s[header[i]]
+                               ELSE IF header[i] \in SeqRange(ln[2]) THEN TRUE ELSE ~s[header[i]]
     IN /\ \A i \in DOMAIN lines : SeqRange(lines[i][1]) \cup SeqRange(lines[i][2]) \subseteq SeqRange(header)
-       /\ \A i \in DOMAIN lines : CoverOf(lines[i]) \subseteq G
-       /\ \A i \in DOMAIN lines : \A j \in DOMAIN lines : i # j => CoverOf(lines[i]) \cap CoverOf(lines[j]) = {}
-       /\ UNION {CoverOf(lines[i]) : i \in DOMAIN lines} = G
+       /\ \A s \in NAsg :
+             LET hit == {i \in DOMAIN lines : CoversLine(lines[i], s)} IN
+             Cardinality(hit) = (IF s \in G THEN 1 ELSE 0)
 
 \* C07 at the command line: with -m the diagram is one satisfying cube of G (or false)
 ModelTableOK(header, rows, G, filter) ==
